@@ -12,10 +12,12 @@ def run(out: common.Outcome):
     rnd = random.Random(out.seed + 7)
     model = Model()
     corr = Corr(out, model, rnd)
-    out.coverage["source_pin"] = common.source_hash(system_common.PINS)
+    common.pins_changed(out, system_common.PINS)
     n = 700 if out.tier == "quick" else 30000
+    n = int(n * out.boost)
     worker_common.run_worker_corr(out, corr, rnd, n, "worker(steal under concurrent get, lock-section interleavings)")
     ns = 260 if out.tier == "quick" else 10000
+    ns = int(ns * out.boost)
     for prof, share in (("nocrash", 0.5), ("crash", 0.5)):
         jobs = system_common.make_jobs(rnd, int(ns * share), prof, modes=["worksteal"])
         system_common.run_sessions(out, corr, rnd, jobs,
